@@ -69,7 +69,7 @@ CLAIMED.update({
 
 CLAIMED.update({
     'C18': ('model_checking',
-            'dom_to_width / _bitfield_limits / _clip_subrange translated from their Python source to z3 (own path-enumerating AST translator) and proved for symbolic lo <= hi, |.| < 2^12; hint formulas printed by the API re-read and compared with lo <= x <= hi by z3 per declaration; prime / unprime / replace_with_* on rigid-table predicate families (state predicates and actions with x and x' in one support) vs bit substitution, sat answers replayed on the real BDDs; support classification vs dependence queries',
+            'dom_to_width / _bitfield_limits / _clip_subrange translated from their Python source to z3 (own path-enumerating AST translator) and proved for symbolic lo <= hi, |.| < 2^12; hint formulas printed by the API re-read and compared with lo <= x <= hi by z3 per declaration; prime / unprime / replace_with_* on rigid-table predicate families (state predicates and actions with a variable and its primed copy in one support) vs bit substitution, sat answers replayed on the real BDDs; support classification vs dependence queries',
             'Bounded solver check: the arithmetic core for ~2^24 declarations in a handful of queries; the public hint API for every (lo, hi) of a window; priming for all predicates of a shape at once with a rigid constant in the support.',
             'Trusted: z3, the py2smt translator (unsupported syntax => inconclusive), dd node accessors, omega\'s parser for re-reading printed hints. Bounds: |lo|,|hi| < 2^12 symbolic, window [-12,12] (thorough [-40,40]) through the API, 3 flexible identifiers + 1 constant for priming.',
             'DESIGN.md §3 C18'),
